@@ -132,11 +132,12 @@ Section Activation.
   Qed.
 
   (* the same over runs in which further updates that touch neither started nor activated flags nor the interrupt map are
-     applied between the ticks (cancel / force requests, proofs/C12_runs.v) *)
+     applied between the ticks, or add fresh generators of parentless roots (cancel / force requests, proofs/C12_runs.v;
+     injected snippets, proofs/C14_order.v) *)
   Theorem activation_always_upd (upd : Type) (apply : S -> upd -> S) :
     (forall s u m, activated (st (apply s u) m) = activated (st s m)) ->
     (forall s u m, started (st (apply s u) m) = started (st s m)) ->
-    (forall s u, ints (apply s u) = ints s) ->
+    (forall s u x, In x (ints (apply s u)) -> In x (ints s) \/ exists r, n_parent (nd p r) = None /\ snd (snd x) = [FVisit r]) ->
     forall ts, Forall T (gstates p upd apply [FVisit 0] (init p) 0 ts).
   Proof.
     intros Ea Es Ei ts. apply (grun_G p Q T R R_refl R_trans Q_stable step_G).
@@ -150,7 +151,9 @@ Section Activation.
     - intros s. now apply same_T.
     - intros s u. apply same_R. apply Ea.
     - intros s u. apply same_T; [apply Ea|apply Es].
-    - intros s u _ O. apply (stacks_stable Q R Q_stable s); [apply same_R; apply Ea|apply Ei|exact O].
+    - intros s u _ O x Hx. destruct (Ei s u x Hx) as [Hin|[r [Pr Ex]]].
+      + eapply Forall_impl; [|exact (O x Hin)]. intros a. apply Q_stable. apply same_R. apply Ea.
+      + rewrite Ex. constructor; [|constructor]. cbn [Q]. intros q Pq. unfold par in Pq. congruence.
     - split; [|split].
       + intros c q _ _ Sc. now rewrite init_started in Sc.
       + constructor; [|constructor]. cbn [Q]. intros q Pq. now apply (root_par p WF) in Pq.
